@@ -350,7 +350,9 @@ func c08(c *Ctx) {
 // between the old average and the reading (both orderings), which by induction is the hull clause.
 func (c *Ctx) ruleHull(monitorFns []*ssa.Function) {
 	tb := ir.NewTB(c.P.IsRepoFunc, c.P.FuncKey)
-	tb.InlineMaxBlocks = 0
+	tb.InlineMaxBlocks = 4 // thin non-caching wrappers around the update formula read like the direct call
+	tb.NoInline = func(f *ssa.Function) bool { return ir.FuncIs(f, PkgUtil, "UpdateSimpleMovingAvg") }
+	tb.ParamCallers = c.StaticCallers
 	n := 0
 	for _, fn := range monitorFns {
 		Calls(fn, func(cc ssa.CallInstruction) {
